@@ -10,12 +10,14 @@ CONSTANTS
   MaxJoins = 0
   MaxReq = 0
   MaxStatus = 0
+  MaxRetry = 0
   MaxPending = 600
   PerPeer = 20
   Weak_NoCommitVerify = FALSE
   Weak_SaveBeforeValidate = FALSE
   Weak_NoRedo = FALSE
   Weak_SeenCommitUnchecked = FALSE
+  Weak_AcceptsFromPreviousPeer = FALSE
   Weak_RedoAlwaysCountsPending = FALSE
   Weak_NilSlotAddressUnchecked = FALSE
   Weak_StaleMaxPeerHeight = FALSE
